@@ -10,7 +10,7 @@ ID = "C01"
 # LEAN_TARGETS / THEOREMS: filled in by the author of lean/OdxVerif/Model/Codec.lean + Props/C01.lean
 # (planned: OdxVerif.Props.C01, theorems OdxVerif.Codec.C01_roundtrip[_partial], …)
 LEAN_TARGETS = ['OdxVerif.Props.C01', 'OdxVerif.Props.C01Fields', 'OdxVerif.Props.C01Nested', 'OdxVerif.Props.C01Compu', 'OdxVerif.Props.C01DynLeaves',
-                'OdxVerif.Props.C01Nested2']
+                'OdxVerif.Props.C01Nested2', 'OdxVerif.Props.C01LengthKey']
 DRIVERS = ["drv_codec"]
 THEOREMS = ["OdxVerif.Codec." + t for t in ['C01_roundtrip_struct', 'C01_roundtrip_mux', 'C01_mux_default_key', 'MuxLeaf.sel_of_case', 'MuxLeaf.sel_of_default', 'MuxLeaf.encode_eq', 'MuxLeaf.decode_eq', 'C01_roundtrip_flat', 'C01_roundtrip_partial', 'C01_frame', 'tree_roundtrip', 'flat_core', 'Tree.encode_eq', 'Tree.decode_eq', 'Trees.good',
                                             # field tier (Props/C01Fields.lean, Proofs/FieldTier*.lean)
@@ -56,6 +56,16 @@ THEOREMS += ["OdxVerif.Codec." + t for t in [
     'DComp.endMarkerMid_ok', 'Comp.ofValueM_ok', 'EmLayout.miss_of_first', 'EmLayout.miss_withByteSize',
     'encodeDop_keeps_eop_false', 'encodeStaticItemsM_eq', 'decodeStaticItemsM_eq', 'DComp.staticFieldM_ok', 'DComp.mux_okM', 'encodeItemsM_eq', 'DComp.dynLenFieldM_okM', 'DComp.eopFieldM_ok',
     'ex2_described', 'ex2St_described', 'ex2Tail_described', 'ex3_described', 'ex4_described', 'ex5_described', 'ex6_described']]
+# LENGTH-KEY tier: the two-pass encoder (Props/C01LengthKey.lean, Proofs/CompKey*.lean)
+THEOREMS += ["OdxVerif.Codec." + t for t in [
+    'C01_roundtrip_lengthkey', 'kitems_roundtrip_msg', 'KItems.encode1', 'KItems.encode2', 'KItems.decode_eq',
+    'KItems.decPre_intro', 'KItems.good', 'enc2_cells', 'enc2_frame', 'Good.hole', 'encodeKeyPlaceholder_none',
+    'encodeKeyPlaceholder_some', 'encodeDop_key', 'decodeParam_key', 'PLUser.encodeParam_eq', 'PLUser.decodeParam_eq',
+    'PLUser.good', 'Obj.encodeParam_pl', 'Obj.decodeParam_pl', 'encKeeps', 'decKeeps', 'Comp.keyFree_of_noKeys',
+    'Comp.KOk.ofKeyFree', 'Comp.kstruct_kok', 'KItems.goodS', 'KItems.dec_consistent', 'Comp.ofObjValue_keyFree',
+    'Comp.ofObjConst_keyFree', 'KeyDop.identical', 'KeyDop.linear', 'KeyDop.placeholder_none', 'KeyDop.placeholder_some',
+    'KeyDop.decodeParam_eq', 'lkExKeyItems_ok', 'lkExKeyItems_side', 'lkExStruct_ok', 'lkExNestItems_ok', 'lkExNestItems_side',
+    'lkExKeyB_keyDop', 'lkExByteItems_ok', 'lkExByteItems_side', 'C01_lengthkey_shadow_counterexample']]
 RULE = ("well-formed descriptions (envelope wf of DESIGN §6/C01, by construction in harness/odxgen/gen.py) x canonical values "
         "(odxgen/values.py): corpus of past failures; every BYTE-SIZE structure size x offset; every (integer type, encoding, byte order, "
         "bit length, bit position) standard-length DOP with boundary values; floats/strings/byte fields x encodings x byte orders; random "
